@@ -36,6 +36,10 @@ def full_obs(gfa):
     return ob
 
 
+NEW_TAG_VALUES = {"nan": lambda: float("nan"), "inf": lambda: float("inf"), "empty": lambda: "", "tab": lambda: "a\tb",
+                  "emptylist": lambda: []}
+
+
 def do_fail(run, op):
     """Execute a call built to fail. Returns the exception or None."""
     kind = op[1]
@@ -59,6 +63,11 @@ def do_fail(run, op):
                 setattr(line, op[3], op[4])
             else:
                 line.set(op[3], op[4])
+        elif kind == "set_new":
+            rec = run.model.recs[op[2]]
+            line = run.find_line(rec)
+            run.last_line = line
+            line.set(op[3], NEW_TAG_VALUES[op[4]]())
         elif kind == "rename":
             rec = run.model.recs[op[2]]
             line = run.find_line(rec)
@@ -121,6 +130,23 @@ def prop(case):
             raise Violation("state-changed", "step %d: the failing call %r raised %s (%s) but the Gfa changed:\n%s\n-- before --\n%s\n-- after --\n%s" % (
                 step, op, type(e).__name__, str(e)[:150].replace("\n", " | "), O.obs_diff(before, after), btext, atext),
                 "%s/%s" % (op[1], op[-1]))
+        if op[1] == "set_new":
+            # nothing of the refused tag stays behind: no datatype, and a valid value given
+            # afterwards is written with its own default datatype
+            line, name = run.last_line, op[3]
+            try:
+                dt = line.get_datatype(name)
+                line.set(name, 5)
+                tag = line.field_to_s(name, tag=True)
+                line.delete(name)
+            except Exception as e2:
+                raise Violation("refused-tag-left-state", "step %d: after the refused %r a valid set(%r, 5) raised %s: %s" % (
+                    step, op, name, type(e2).__name__, str(e2)[:200]), op[-1])
+            if dt is not None or tag != name + ":i:5":
+                raise Violation("refused-tag-left-state", "step %d: after the refused %r: get_datatype(%r) = %r, set(%r, 5) written as %r" % (
+                    step, op, name, dt, name, tag), op[-1])
+            if full_obs(run.gfa) != before or str(run.gfa) != btext:
+                raise Violation("state-changed", "step %d: set/delete of %r after the refused call left the Gfa changed" % (step, name), op[-1])
         probs = O.invariants(run.gfa)
         if probs:
             raise Violation("invariant", "after the failing call %r: %s" % (op, probs[:3]))
@@ -173,7 +199,7 @@ def build_fail(st, r):
     fresh = [n for n in ["f1", "f2", "f3", "f4"] if n not in names and n not in m.undefined_mentions()]
     fa = fresh[0] if fresh else "zz1"
     fb = fresh[1] if len(fresh) > 1 else "zz2"
-    k = gen.choice(r, [0, 1, 1, 1, 2, 3, 4, 5, 6, 7, 8, 9, 10, 10, 11])
+    k = gen.choice(r, [0, 1, 1, 1, 2, 3, 4, 5, 6, 7, 8, 9, 10, 10, 11, 12])
     real_named = [x for x in m.recs if M.name_of(x) is not None and not (version == "gfa1" and x.rt in "LC")]
     if k == 0 and real_named:
         nm = M.name_of(gen.choice(r, real_named))
@@ -260,6 +286,11 @@ def build_fail(st, r):
         i = gen.choice(r, cands)
         n_, t_, _v = [t for t in m.recs[i].tags if t[1] in "ifHB" and t[0] in gen.TAG_NAMES][0]
         return ["fail", "set", i, n_, {"i": "12x", "f": "1.2.3", "H": "XYZ", "B": "c,999"}[t_], "set", "invalid_value_vlevel3"]
+    if k == 12:
+        cands = [i for i, x in enumerate(m.recs) if x.rt not in ("#", "H")]
+        if not cands:
+            return None
+        return ["fail", "set_new", gen.choice(r, cands), "zn", gen.choice(r, sorted(NEW_TAG_VALUES)), "invalid_new_tag_vlevel3"]
     if k == 9:
         line = H.new_record(st, r)
         if line is None or line[0] in "#":
@@ -299,7 +330,7 @@ def gen_case(r, version):
             f = build_fail(st_, r)
             if f is None:
                 continue
-            if f[-1] == "invalid_value_vlevel3" and vlevel < 3:
+            if f[-1] in ("invalid_value_vlevel3", "invalid_new_tag_vlevel3") and vlevel < 3:
                 continue
             if f[-1] == "invalid_name_vlevel3" and vlevel < 1:
                 continue  # (the name of the kind is historical: an invalid name is refused from vlevel 1 on, D79)
